@@ -302,7 +302,7 @@ const SYSTEM: [(u8, u8, u8); 16] = [
     (255, 255, 255),
 ];
 
-fn palette(index: u32) -> RGBA {
+pub(crate) fn palette(index: u32) -> RGBA {
     if index < 16 {
         let (r, g, b) = SYSTEM[index as usize];
         RGBA::new(r, g, b, 255)
